@@ -403,7 +403,10 @@ pub fn check_c07(prog: &NetProgram, res: &NetResult, info: &mut RunInfo) {
         }
         // compare with what the receiver saw (a receiver that is shut down at some point ignores deliveries: that is
         // C09's subject; the channel-side accounting above is still checked)
-        let receiver_goes_down = res.trace.iter().any(|r| r.m as usize == receiver && matches!(r.ev, Ev::ShutdownReq { .. }));
+        let receiver_goes_down = res.trace.iter().any(|r| r.m as usize == receiver && matches!(r.ev, Ev::ShutdownReq { .. } | Ev::PanicNow));
+        if res.trace.iter().any(|r| r.m as usize == from.0 && matches!(r.ev, Ev::PanicNow)) && !deliver.is_empty() {
+            info.probe("sender_panicked_after_offering");
+        }
         let end_time = res.ok.map_or(u64::MAX, |o| o.0);
         let mut last_seq: Option<u32> = None;
         for (uid, lo, hi) in &deliver {
@@ -670,6 +673,10 @@ pub fn check_c14(prog: &NetProgram, res: &NetResult, info: &mut RunInfo) {
                 if pspec.send_hook == 2 && matches!(tr.get(i), Some(Rec { m: rm, ev: Ev::Offer { .. }, .. }) if *rm as usize == m) {
                     i += 1;
                 }
+                if pspec.mode == 5 && matches!(tr.get(i), Some(Rec { m: rm, ev: Ev::ShutdownReq { .. }, .. }) if *rm as usize == m) {
+                    i += 1;
+                    info.probe("element_requested_shutdown");
+                }
                 if ekind < SELF_KIND {
                     match pspec.mode {
                         1 => msg = Some((euid, ekind.wrapping_add(1) & 0x0fff)),
@@ -786,6 +793,48 @@ pub fn check_c14(prog: &NetProgram, res: &NetResult, info: &mut RunInfo) {
                 }
             }
             last.insert(key, (*uid, *arr));
+        }
+    }
+    // what an element or a callback emits during an event is emitted: a zero-delay message over a channel-free link to
+    // a module that never goes down reaches it (whatever event kind the sender was in: message, wake-up, start-up of a
+    // restart); emissions of the tear-down brackets at the end of the simulation are exempt
+    if res.ok.map_or(false, |o| o.2 == 0) {
+        let nmod = prog.modules.len();
+        let goes_down: Vec<bool> = (0..nmod).map(|m| tr.iter().any(|r| r.m as usize == m && matches!(r.ev, Ev::ShutdownReq { .. } | Ev::PanicNow))).collect();
+        let max_stack = (0..nmod).map(|m| stack_of(prog, m).len()).max().unwrap_or(0) as u32;
+        let first_end = tr.iter().find(|r| matches!(r.ev, Ev::End { .. })).map_or(u32::MAX, |r| r.seq.saturating_sub(2 * max_stack + 2));
+        // a sender is down from the event in which it asked for its shutdown until the start-up callback of its restart
+        // (the elements' event_start hooks of that restart event run before it), and for good after a panic
+        let mut down = vec![false; nmod];
+        let mut dead = vec![false; nmod];
+        for r in tr {
+            match &r.ev {
+                Ev::ShutdownReq { .. } => down[r.m as usize] = true,
+                Ev::PanicNow => dead[r.m as usize] = true,
+                Ev::Start { .. } => down[r.m as usize] = false,
+                _ => {}
+            }
+            if let Ev::Offer { uid, gate, delay_ns: 0, .. } = &r.ev {
+                if r.seq >= first_end {
+                    break;
+                }
+                if down[r.m as usize] || dead[r.m as usize] {
+                    continue;
+                }
+                let hops = graph.walk((r.m as usize, *gate as usize));
+                if hops.is_empty() || hops.iter().any(|h| h.1.is_some()) {
+                    continue;
+                }
+                if hops.iter().any(|h| goes_down[h.0 .0]) {
+                    continue;
+                }
+                info.probe("emission_delivery_checked");
+                if !first_seen.contains_key(uid) {
+                    info.violate(Violation::new("C14", "emission-lost", format!(
+                        "message {uid:#x} emitted by module {} at {} ns over a channel-free link to a module that never goes down was never seen there", r.m, r.t)));
+                    return;
+                }
+            }
         }
     }
     info.events += res.ok.map_or(0, |o| o.1 as u64);
@@ -968,8 +1017,10 @@ pub fn check_c16(prog: &NetProgram, res: &NetResult, info: &mut RunInfo) {
         }
     }
     let mut lost = 0u64;
+    // per sending gate: the last message an idle channel accepted (time, length)
+    let mut accepted: BTreeMap<(usize, usize), (u64, usize, u32)> = BTreeMap::new();
     for r in &res.trace {
-        if let Ev::Offer { uid, gate, busy, has_chan, delay_ns: 0, len, .. } = &r.ev {
+        if let Ev::Offer { uid, gate, busy, has_chan, delay_ns: 0, len, fin_ns } = &r.ev {
             let (sm, _, site, ai) = uid_parts(*uid);
             let Some(exp_len) = expected_len_uid(prog, sm, site, ai, *uid) else { continue };
             if *len as usize != exp_len {
@@ -977,18 +1028,40 @@ pub fn check_c16(prog: &NetProgram, res: &NetResult, info: &mut RunInfo) {
                     "message {uid:#x} reports length {len} when offered, 64-byte header + declared body length = {exp_len}")));
                 return;
             }
-            let hops = graph.walk((r.m as usize, *gate as usize));
+            let from = (r.m as usize, *gate as usize);
+            let hops = graph.walk(from);
             if hops.len() == 1 && *has_chan && !*busy {
                 if let Some(ch) = &hops[0].1 {
-                    if ch.jitter_ns == 0 {
-                        if let Some(t) = arrivals.get(uid) {
-                            let exp = r.t + busy_ns(exp_len, ch.bitrate) + ch.latency_ns;
-                            info.probe("length_vs_channel_time_checked");
-                            if t.abs_diff(exp) > 2 {
-                                info.violate(Violation::new("C16", "charged-size", format!(
-                                    "message {uid:#x} of length {exp_len} arrived after {} ns over an idle channel; (64 + declared)*8/bitrate + latency = {} ns", t - r.t, exp - r.t)));
-                                return;
+                    if let Some(t) = arrivals.get(uid) {
+                        let exp = r.t + busy_ns(exp_len, ch.bitrate) + ch.latency_ns;
+                        info.probe("length_vs_channel_time_checked");
+                        if *t + 2 < exp || *t > exp + ch.jitter_ns + 2 {
+                            info.violate(Violation::new("C16", "charged-size", format!(
+                                "message {uid:#x} of length {exp_len} arrived after {} ns over an idle channel; (64 + declared)*8/bitrate + latency = {} ns (jitter bound {} ns)", t - r.t, exp - r.t, ch.jitter_ns)));
+                            return;
+                        }
+                    }
+                }
+            }
+            // the time the channel stays occupied is the charged size over the bitrate, whatever the jitter: with the
+            // Drop policy the transmission a busy channel reports is the one of the last message it accepted
+            if hops.len() == 1 && *has_chan {
+                if let Some(ch) = &hops[0].1 {
+                    if ch.queue == -2 && ch.bitrate > 0 {
+                        if *busy {
+                            if let Some((t0, l0, u0)) = accepted.get(&from) {
+                                let exp = t0 + busy_ns(*l0, ch.bitrate);
+                                if r.t <= exp {
+                                    info.probe("busy_period_vs_length_checked");
+                                    if fin_ns.abs_diff(exp) > 2 {
+                                        info.violate(Violation::new("C16", "charged-size", format!(
+                                            "channel of gate {from:?} is occupied until {fin_ns} ns by message {u0:#x} of length {l0} accepted at {t0} ns; (64 + declared)*8/bitrate gives {exp} ns")));
+                                        return;
+                                    }
+                                }
                             }
+                        } else {
+                            accepted.insert(from, (r.t, exp_len, *uid));
                         }
                     }
                 }
